@@ -338,6 +338,176 @@ def replay_e2e(failing):
     return real != failing['expected']
 
 
+# ---- multi-statement doctests: flags by default options, block directives, inline directives on statements of several
+# ---- shapes (one line, bracketed over several lines with a pure comment line inside), outputs by stdout, by value, by both
+E2E_NAMES = ['ELLIPSIS', 'NORMALIZE_WHITESPACE', 'IGNORE_WHITESPACE', 'NORMALIZE_REPR', 'DONT_ACCEPT_BLANKLINE']
+E2E_BASE = {'ELLIPSIS': True, 'NORMALIZE_WHITESPACE': True, 'IGNORE_WHITESPACE': False, 'NORMALIZE_REPR': True, 'DONT_ACCEPT_BLANKLINE': False}
+E2E_VALPOOL = [('a  b', "'a b'"), ('abcdef', "'abc...'"), ('abc', 'abc'), ('a b', "'a b'"), ('a b', "'ab'"), ('x', "'y'"),
+               ('a-x-b', "'a...b'"), ('a\n\nb', "'a\\n\\nb'"), ('a b', "'a  b'"), ('q', '"q"')]
+
+
+def _e2e_multi_case(rng, dir_names=None):
+    """returns (text, defaults, stmts) ; stmts: list of {'cands': [...], 'want': str, 'flags': {...}}"""
+    defaults = rng.choice([{}, {}, {'IGNORE_WHITESPACE': False}, {rng.choice(E2E_NAMES): rng.random() < 0.5},
+                           {rng.choice(E2E_NAMES): rng.random() < 0.5, rng.choice(E2E_NAMES): rng.random() < 0.5}])
+    dir_names = dir_names or E2E_NAMES
+    cur = dict(E2E_BASE)
+    cur.update(defaults)
+    lines = []
+    stmts = []
+    for k in range(rng.randint(1, 4)):
+        if rng.random() < 0.35:
+            flag = rng.choice(dir_names)
+            val = rng.random() < 0.5
+            lines.append('>>> # xdoctest: %s%s' % ('+' if val else '-', flag))
+            cur[flag] = val
+        loc = dict(cur)
+        inline = ''
+        if rng.random() < 0.5:
+            flag = rng.choice(dir_names)
+            val = rng.random() < 0.5
+            loc[flag] = val
+            inline = '  # xdoctest: %s%s' % ('+' if val else '-', flag)
+        kind = rng.choice(['print', 'print', 'value', 'both', 'mixedprint', 'mixedvalue', 'mixedboth'])
+        cont = rng.choice(['>>> ', '... '])
+        # (distribution only) most statements should pass under their flags, so that later statements are reached
+        prefer_pass = rng.random() < 0.75
+        for _attempt in range(6):
+            if kind in ('print', 'mixedprint'):
+                got, want = rng.choice(E2E_POOL)
+                cands = [got + '\n']
+                expr = 'print(%r' % got
+            elif kind in ('value', 'mixedvalue'):
+                v, want = rng.choice(E2E_VALPOOL)
+                cands = [repr(v)]
+                expr = 'str(%r' % v
+            else:
+                v, want = rng.choice(E2E_VALPOOL + [(g, w) for g, w in E2E_POOL])
+                noise = rng.choice(['unrelated', 'zz top'])
+                cands = [noise + '\n', repr(v)]
+                expr = '(print(%r) or %r' % (noise, v)
+            if not prefer_pass or any(checker_spec.check_output(c, want, **loc) for c in cands):
+                break
+        if kind in ('mixedvalue', 'mixedboth'):
+            # an old-style (`...`) continuation directly followed by a want is compiled in 'single' mode, which echoes
+            # the value to stdout (REPL semantics, property C20); value-carrying statements keep the all-`>>>` style
+            cont = '>>> '
+        if kind.startswith('mixed'):
+            where = rng.choice([0, 2])
+            src = ['>>> ' + expr + (inline if where == 0 else ''), cont + '    # a remark inside the brackets',
+                   cont + ')' + (inline if where == 2 else '')]
+        else:
+            src = ['>>> ' + expr + ')' + inline]
+        first = len(lines)
+        lines.extend(src)
+        lines.extend(want.split('\n'))
+        stmts.append({'cands': cands, 'want': want, 'flags': loc, 'lines': [first, len(lines)]})
+    return '\n'.join(lines) + '\n', defaults, stmts
+
+
+def _e2e_multi_real(text, defaults, stmts=()):
+    import warnings as _w
+    from xdoctest import core
+    with _w.catch_warnings():
+        _w.simplefilter('ignore')
+        exs = list(core.parse_docstr_examples(text, callname='t', style='freeform', fpath='<verif>', lineno=1))
+    if not exs:
+        return 'noexample'
+    ex = exs[0]
+    ex.mode = 'native'
+    ex.config['default_runtime_state'] = dict(defaults)
+    try:
+        summary = ex.run(on_error='return', verbose=0)
+    except Exception as e:
+        return 'E:' + type(e).__name__
+    if not summary['failed']:
+        return 'pass'
+    try:
+        off = ex.failed_part.line_offset
+        for idx, st in enumerate(stmts):
+            if st['lines'][0] <= off < st['lines'][1]:
+                return 'fail@%d' % idx
+        return 'fail@line%d' % off
+    except Exception:
+        return 'fail@?'
+
+
+def e2e_multi(ctx, corr, count=None, dir_names=None):
+    rng = ctx.sub_rng('e2e_multi' + ''.join(dir_names or []))
+    cases = [_e2e_multi_case(rng, dir_names) for _ in range(count or (400 if ctx.quick else 6000))]
+    lines = []
+    for text, defaults, stmts in cases:
+        for st in stmts:
+            for c in st['cands']:
+                lines.append('check_output\t%s\t%s\t%s' % (''.join('1' if st['flags'][k] else '0' for k in E2E_NAMES), enc(c), enc(st['want'])))
+    model = iter(driver.run_lines(lines))
+    for text, defaults, stmts in cases:
+        m = 'pass'
+        for idx, st in enumerate(stmts):
+            ok = [next(model) == '1' for _ in st['cands']]
+            if not any(ok) and m == 'pass':
+                m = 'fail@%d' % idx
+        r = _e2e_multi_real(text, defaults, stmts)
+        corr.count('e2e:multi')
+        corr.nontriv(('e2em', text, repr(sorted(defaults.items()))))
+        corr.tag('e2e:multi:' + r.split('@')[0])
+        if r != m:
+            corr.disagree('e2e:multi', {'text': text, 'default_runtime_state': defaults, 'stmts': stmts}, m, r)
+
+
+def _e2e_multi_spec(stmts):
+    for idx, st in enumerate(stmts):
+        if not any(checker_spec.check_output(c, st['want'], **st['flags']) for c in st['cands']):
+            return 'fail@%d' % idx
+    return 'pass'
+
+
+def e2e_multi_hits(corr):
+    hits = []
+    for d in corr.disagreements:
+        if d['suite'] != 'e2e:multi' or len(hits) >= 3:
+            continue
+        i = d['input']
+        try:
+            exp = _e2e_multi_spec(i['stmts'])
+        except Exception:
+            continue
+        if d['impl'] != exp:
+            hits.append({'kind': 'e2e_multi', 'suite': d['suite'], 'input': i, 'expected': exp, 'impl': d['impl'],
+                         'why': 'statement by statement, with the flags that the default options, the block directives so far and the '
+                                "statement's own inline directive select, the documented relation (want vs printed text, or vs the repr of the value) gives %s; the doctest ended %s" % (exp, d['impl'])})
+    return hits
+
+
+def part_check_hits(corr):
+    from . import C02 as _c02
+    found = []
+    for d in corr.disagreements:
+        if d['suite'] != 'part_check' or len(found) >= 3:
+            continue
+        inp = d['input']
+        try:
+            exp = _c02._spec_part_check(inp)
+            if exp is None:
+                continue
+            real = _c02._real_part_check(inp)
+        except Exception:
+            continue
+        if real != exp:
+            found.append({'kind': 'part_check', 'suite': 'part_check', 'input': inp, 'expected': exp, 'impl': real,
+                          'why': 'DoctestPart.check says %s; by the documented relation under the flags given (some trailing portion of the '
+                                 'output or the value repr must match the want) it is %s' % (real, exp)})
+    return found
+
+
+def replay_e2e_multi(failing):
+    i = failing['input']
+    r = _e2e_multi_real(i['text'], i['default_runtime_state'], i['stmts'])
+    print(i['text'])
+    print('default options %r -> %s, expected %s' % (i['default_runtime_state'], r, failing['expected']))
+    return r != failing['expected']
+
+
 def stateful_failure(got, want, flags_then):
     """independent oracle for the stateful suite: is check_output a function of (got, want, current flags)? looks for a
     flag setting `first` such that checking the pair under `first` and then, on the SAME RuntimeState object, under
@@ -398,6 +568,9 @@ def correspondence(ctx, corr):
         corr.disagree('default_flags', {}, m, r)
     stateful_reuse(ctx, corr)
     e2e_inline(ctx, corr)
+    e2e_multi(ctx, corr)
+    from . import C02 as _c02
+    _c02.part_check_suite(ctx, corr, quick_n=2500, full_n=30000)
     # exhaustive token strings
     if ctx.quick:
         plans = [(TOKENS, 2, 32)]
@@ -570,7 +743,7 @@ def _fails(got, want):
 
 
 def search(ctx, corr, broken):
-    found = stateful_hits(corr) + e2e_hits(corr)
+    found = stateful_hits(corr) + e2e_hits(corr) + e2e_multi_hits(corr) + part_check_hits(corr)
     cands = []
     for d in corr.disagreements:
         i = d['input']
@@ -630,6 +803,13 @@ def replay(ctx, failing):
         return replay_stateful(failing)
     if failing.get('kind') == 'e2e':
         return replay_e2e(failing)
+    if failing.get('kind') == 'e2e_multi':
+        return replay_e2e_multi(failing)
+    if failing.get('kind') == 'part_check':
+        from . import C02 as _c02
+        real = _c02._real_part_check(failing['input'])
+        print('DoctestPart.check(%r) -> %s, expected %s' % (failing['input'], real, failing['expected']))
+        return real != failing['expected']
     i = failing['input']
     fs = list(law_failures(i['got'], i['want']))
     fs = [f for f in fs if classify(ctx, dict(f, input=i)) is None]
